@@ -351,7 +351,7 @@ def run_shard(spec, emit):
     evaluator = Evaluator()
     n_docs = 300 if tier == "quick" else 6000
     per_doc = 15 if tier == "quick" else 25
-    deadline = time.monotonic() + (100 if tier == "quick" else 1500)
+    deadline = time.monotonic() + (100 if tier == "quick" else 300)
     samples = 0
     for _ in range(n_docs):
         if time.monotonic() > deadline:
